@@ -180,14 +180,36 @@ def _unit_subms(As):
             a_out = [(S.us_of(e.timestamp), S.dus_of(e.duration)) for e in out if e.data["label"].startswith("a")]
             if a_out != [(S.us_of(e.timestamp), S.dus_of(e.duration)) for e in A]:
                 u.violation("union_no_overlap:sub-ms-end:list-one-changed", f"{list(a)} / {list(b)}: list-one events in output {a_out}", case, size=len(a) + len(b))
-            # uncovered time of list two in microseconds
-            cover = [(S.us_of(e.timestamp), S.us_of(e.timestamp) + S.dus_of(e.duration)) for e in A]
+            # list two, piece by piece, in microseconds: the uncovered sub-intervals of each event are known
+            # exactly; every edge of a returned piece must be exact EXCEPT a piece start produced by a cut
+            # at a list-one end inside a millisecond, which may lie up to 999 us early (timestamps have ms
+            # resolution).  In particular a piece that runs to its source event's end ends exactly there
+            # (seeded: remainder duration computed from the unfloored cut -> the tail lost up to 1 ms).
+            cover = sorted((S.us_of(e.timestamp), S.us_of(e.timestamp) + S.dus_of(e.duration)) for e in A)
             for j, (s2, d2) in enumerate(b):
                 lo, hi = S.us_of(emb.t(s2)), S.us_of(emb.t(s2 + d2))
-                want = hi - lo - sum(max(0, min(hi, c1) - max(lo, c0)) for c0, c1 in cover)
-                have = sum(S.dus_of(e.duration) for e in out if e.data["label"] == f"b{j}")
-                if abs(have - want) > 1000 * (len(a) + 1):
-                    u.violation("union_no_overlap:sub-ms-end:list-two-time-wrong", f"{list(a)} (+500us ends) / {list(b)}: b{j} keeps {have} us, {want} us of it are outside list one", case, size=len(a) + len(b))
+                want = []
+                x = lo
+                for c0, c1 in cover:
+                    if c1 <= x or c0 >= hi:
+                        continue
+                    if c0 > x:
+                        want.append((x, min(c0, hi)))
+                    x = max(x, c1)
+                if x < hi:
+                    want.append((x, hi))
+                if d2 == 0:
+                    continue  # zero-length list-two events are covered by the main lattice
+                have = sorted((S.us_of(e.timestamp), S.us_of(e.timestamp) + S.dus_of(e.duration)) for e in out if e.data["label"] == f"b{j}")
+                have = [h for h in have if h[1] > h[0]]
+                ok = len(have) == len(want)
+                if ok:
+                    for (w0, w1), (h0, h1) in zip(want, have):
+                        start_ok = h0 == w0 or (w0 != lo and w0 % 1000 != 0 and w0 - 999 <= h0 <= w0)
+                        if not start_ok or h1 != w1:
+                            ok = False
+                if not ok:
+                    u.violation("union_no_overlap:sub-ms-end:list-two-pieces-wrong", f"{list(a)} (+500us ends) / {list(b)}: b{j} returned as {have} us, uncovered parts are {want} us (only a start at a sub-ms cut may be up to 999 us early)", case, size=len(a) + len(b))
     u.sample({"kind": "sub-millisecond ends", "list_one": [list(x) for x in As[-1]] if As else []}, cap=1)
     return u.result()
 
